@@ -37,6 +37,7 @@ func (m *Mutex) Lock() {
 	sched.WaitUntil(m, "Mutex.Lock", func() bool { return st.N[0] == 0 })
 	st.N[0] = 1
 	sched.Acquire(m)
+	sched.Did(m, "Lock", true)
 }
 
 func (m *Mutex) TryLock() bool {
@@ -64,6 +65,7 @@ func (m *Mutex) Unlock() {
 	}
 	sched.Release(m)
 	st.N[0] = 0
+	sched.Did(m, "Unlock", true)
 }
 
 // ---- RWMutex -------------------------------------------------------------------
@@ -84,6 +86,8 @@ func (m *RWMutex) RLock() {
 	sched.WaitUntilRead(m, "RWMutex.RLock", func() bool { return st.N[0] == 0 && st.N[2] == 0 })
 	st.N[1]++
 	sched.Acquire(m) // writers' releases only
+	sched.Did(m, "RLock", false)
+	sched.Did(&m.rclk, "r+", true) // the reader count is state a writer depends on
 }
 
 func (m *RWMutex) RUnlock() {
@@ -97,6 +101,7 @@ func (m *RWMutex) RUnlock() {
 	}
 	sched.Release(&m.rclk)
 	st.N[1]--
+	sched.Did(&m.rclk, "r-", true)
 }
 
 func (m *RWMutex) Lock() {
@@ -108,11 +113,14 @@ func (m *RWMutex) Lock() {
 	// announce: from here on new readers are held back
 	sched.PointOn(m, "RWMutex.Lock(announce)")
 	st.N[2]++
+	sched.Did(m, "WAnnounce", true)
 	sched.WaitUntil(m, "RWMutex.Lock", func() bool { return st.N[0] == 0 && st.N[1] == 0 })
 	st.N[2]--
 	st.N[0] = 1
 	sched.Acquire(m)
 	sched.Acquire(&m.rclk)
+	sched.Did(m, "WLock", true)
+	sched.Did(&m.rclk, "w", true)
 }
 
 func (m *RWMutex) Unlock() {
@@ -126,6 +134,7 @@ func (m *RWMutex) Unlock() {
 	}
 	sched.Release(m)
 	st.N[0] = 0
+	sched.Did(m, "WUnlock", true)
 }
 
 func (m *RWMutex) RLocker() Locker { return (*rlocker)(m) }
@@ -154,6 +163,7 @@ func (wg *WaitGroup) Add(n int) {
 	if n < 0 {
 		sched.Release(wg)
 	}
+	sched.Did(wg, "Add", true)
 }
 
 func (wg *WaitGroup) Done() { wg.Add(-1) }
@@ -166,6 +176,7 @@ func (wg *WaitGroup) Wait() {
 	st := sched.St(wg)
 	sched.WaitUntil(wg, "WaitGroup.Wait", func() bool { return st.N[0] == 0 })
 	sched.Acquire(wg)
+	sched.Did(wg, "Wait", false)
 }
 
 // ---- Once ----------------------------------------------------------------------
